@@ -544,6 +544,21 @@ func checkNoDrop(e *Env, m *e1Model, ts *ssa.Function) {
 		for _, cd := range flow.DomConds(ret.Block()) {
 			arg, pr, ok := flow.LenPred(cd.V, cd.Pol)
 			if !ok {
+				// a sum of lengths that is zero (directly, or computed by a helper of the group such as `g.Len()`): every
+				// term is zero
+				if ip, ok2 := flow.AsIntPred(cd.V, cd.Pol); ok2 && ip.OnlyZero() {
+					if fields, ok3 := lenSumFields(flow.StripConv(ip.X), m.fragFn.Params[0], 0); ok3 {
+						for _, f := range fields {
+							switch f {
+							case "Names":
+								names = true
+							case "NamesWithCondtions":
+								conds = true
+							}
+						}
+						continue
+					}
+				}
 				other++
 				continue
 			}
@@ -852,6 +867,44 @@ func returnBuilder(p *load.Program) *ssa.Function {
 		return found[0]
 	}
 	return ret
+}
+
+// lenSumFields: v is len(recv.F1) + len(recv.F2) + ... (any number of terms, lengths of fields of the group `recv`),
+// written out or computed by a single-return method of the group; returns the field names.
+func lenSumFields(v ssa.Value, recv ssa.Value, depth int) ([]string, bool) {
+	if depth > 4 {
+		return nil, false
+	}
+	switch x := v.(type) {
+	case *ssa.BinOp:
+		if x.Op != token.ADD {
+			return nil, false
+		}
+		a, ok1 := lenSumFields(flow.StripConv(x.X), recv, depth+1)
+		b, ok2 := lenSumFields(flow.StripConv(x.Y), recv, depth+1)
+		return append(a, b...), ok1 && ok2
+	case *ssa.Call:
+		if bi, ok := x.Call.Value.(*ssa.Builtin); ok && bi.Name() == "len" && len(x.Call.Args) == 1 {
+			// len(*(&recv.F))
+			if ld, ok := x.Call.Args[0].(*ssa.UnOp); ok && ld.Op == token.MUL {
+				if fa, ok := ld.X.(*ssa.FieldAddr); ok && fa.X == recv {
+					st := fa.X.Type().Underlying().(*types.Pointer).Elem().Underlying().(*types.Struct)
+					return []string{st.Field(fa.Field).Name()}, true
+				}
+			}
+			return nil, false
+		}
+		h := flow.Callee(x)
+		if h == nil || len(h.Blocks) == 0 || h.Pkg == nil || h.Pkg.Pkg.Path() != load.PkgRoot || len(x.Call.Args) != 1 || len(h.Params) != 1 || x.Call.Args[0] != recv {
+			return nil, false
+		}
+		rets := flow.Returns(h)
+		if len(rets) != 1 || len(flow.RetResults(rets[0])) != 1 {
+			return nil, false
+		}
+		return lenSumFields(flow.StripConv(flow.RetResults(rets[0])[0]), h.Params[0], depth+1)
+	}
+	return nil, false
 }
 
 // checkRetContract: the return builder emits Val = uint32(a) with a = action | EPERM iff action == ActionErrno.
